@@ -588,27 +588,6 @@ def cfgGil (cfg : Cfg) : Bool := cfg.gilDisabled.truthy
 def cfgPymalloc (cfg : Cfg) : Bool := cfg.withPymalloc.truthy || cfg.withPymalloc.isNone
 def cfgWide (cfg : Cfg) : Bool := cfg.unicodeSize == .int 4 || (cfg.unicodeSize.isNone && cfg.maxUnicodeWide)
 
-theorem tupLt_pair (x y a b : Nat) :
-    tupLt [x, y] [a, b] = !(decide (x > a) || (x == a && decide (y ≥ b))) := by
-  simp only [tupLt]
-  rcases Nat.lt_trichotomy x a with hx | hx | hx
-  · have h1 : (x == a) = false := by simp; omega
-    have h2 : ¬ (x > a) := by omega
-    simp [h1, h2, hx]
-  · subst hx
-    rcases Nat.lt_trichotomy y b with hy | hy | hy
-    · have h1 : (y == b) = false := by simp; omega
-      have h2 : ¬ (b ≤ y) := by omega
-      simp [h1, h2, hy]
-    · subst hy; simp
-    · have h1 : (y == b) = false := by simp; omega
-      have h2 : (b ≤ y) := by omega
-      have h3 : ¬ (y < b) := by omega
-      simp [h1, h2, h3]
-  · have h1 : (x == a) = false := by simp; omega
-    have h2 : ¬ (x < a) := by omega
-    simp [h1, h2, hx]
-
 /-- `_cpython_abis` for every two-component version and every configuration (debug via `Py_DEBUG` or, when
     unset, `gettotalrefcount`/`_d.pyd`; free-threading from 3.13; pymalloc before 3.8; wide unicode before 3.3;
     from 3.8 a debug build also accepts the non-debug ABI) -/
